@@ -75,8 +75,16 @@ Definition idx_where {A} (bad : A -> bool) (l : list A) : list nat :=
   map fst (filter (fun ia => bad (snd ia)) (combine (seq 0 (length l)) l)).
 
 Definition solve_case := (game (T:=float) * bool * xout)%type.
+(* The model gets a little more fuel than the sweeps the implementation reported, so that evaluating it
+   costs no more than the implementation's own run; needing more shows up as OutOfFuel = mismatch.
+   Error outcomes carry no sweep count: they get a fixed generous amount. *)
+Definition fuel_for (x : xout) : nat :=
+  match x with
+  | XOk r => Nat.max (x_itr r) (x_itw r) + 3
+  | _ => N.to_nat 60000
+  end.
 Definition run_solve_cases (cmp : outcome mres -> xout -> bool) (cs : list solve_case) : list nat :=
-  idx_where (fun c => negb (cmp (solve fops (fst (fst c)) (snd (fst c))) (snd c))) cs.
+  idx_where (fun c => negb (cmp (solve_fuel fops (fuel_for (snd c)) (fst (fst c)) (snd (fst c))) (snd c))) cs.
 
 (* printable view of a model result, for replay files *)
 Definition show_floats (l : list float) : list (Z * Z) := map fdecomp l.
@@ -103,5 +111,7 @@ Definition cmp_reach (o : outcome (list (node (T:=float)) * list (option (list s
   | _, _ => false
   end.
 Definition reach_case := (game (T:=float) * bool * xreach)%type.
+Definition fuel_for_reach (x : xreach) : nat :=
+  match x with XROk _ _ i => i + 3 | _ => N.to_nat 60000 end.
 Definition run_reach_cases (cs : list reach_case) : list nat :=
-  idx_where (fun c => negb (cmp_reach (solve_reach fops (fst (fst c)) (snd (fst c))) (snd c))) cs.
+  idx_where (fun c => negb (cmp_reach (solve_reach_fuel fops (fuel_for_reach (snd c)) (fst (fst c)) (snd (fst c))) (snd c))) cs.
